@@ -69,6 +69,8 @@ pub enum VerMode {
     On,
     OnIndex,
     OnNoIndex,
+    /// versioning on or off, never the version index
+    OnNoIndexOrOff,
 }
 #[derive(Clone, Copy, Debug, PartialEq)]
 pub enum VlogMode {
@@ -84,12 +86,12 @@ impl Cfg {
         let level_count = r.range(1, 5) as u8;
         let versioning = match ver {
             VerMode::Off => false,
-            VerMode::Any => r.chance(1, 3),
+            VerMode::Any | VerMode::OnNoIndexOrOff => r.chance(1, 3),
             _ => true,
         };
         let index = match ver {
             VerMode::OnIndex => true,
-            VerMode::OnNoIndex | VerMode::Off => false,
+            VerMode::OnNoIndex | VerMode::Off | VerMode::OnNoIndexOrOff => false,
             VerMode::On | VerMode::Any => versioning && r.chance(1, 2),
         };
         let vlog_on = versioning
